@@ -85,12 +85,18 @@ class SimPopen:
                  universal_newlines=None, startupinfo=None, creationflags=0, restore_signals=True,
                  start_new_session=False, pass_fds=(), *, user=None, group=None, extra_groups=None,
                  encoding=None, errors=None, text=None, umask=-1, pipesize=-1, process_group=None):
-        planned_error = self._init(args, stdin, stdout, stderr, shell, cwd, env)
+        # like the real class: fileno() of every handle (side effect: SpooledTextFile rolls over).  The handles are
+        # Exactly's own objects: what they raise (a disk fault while rolling over) is Exactly's business, as under the
+        # real Popen, whose _get_handles calls fileno() inside the constructor
+        fd_in = None if stdin in (None, PIPE, DEVNULL) else _fd_of(stdin)
+        fd_out = None if stdout in (None, PIPE, DEVNULL) else _fd_of(stdout)
+        fd_err = None if stderr in (None, PIPE, DEVNULL, STDOUT) else _fd_of(stderr)
+        planned_error = self._init(args, stdin, stdout, stderr, shell, cwd, env, fd_in, fd_out, fd_err)
         if planned_error is not None:
             raise planned_error
 
     @kernel.guarded
-    def _init(self, args, stdin, stdout, stderr, shell, cwd, env):
+    def _init(self, args, stdin, stdout, stderr, shell, cwd, env, fd_in, fd_out, fd_err):
         sim = kernel.cur()
         self.args = args
         self.returncode = None
@@ -99,10 +105,6 @@ class SimPopen:
         self._killed = False
         self._terminated = False
         self._waits = []
-        # like the real class: fileno() of every handle (side effect: SpooledTextFile rolls over)
-        fd_in = None if stdin in (None, PIPE, DEVNULL) else _fd_of(stdin)
-        fd_out = None if stdout in (None, PIPE, DEVNULL) else _fd_of(stdout)
-        fd_err = None if stderr in (None, PIPE, DEVNULL, STDOUT) else _fd_of(stderr)
         if stderr == STDOUT:
             fd_err = fd_out
         tag = tag_of(args, shell)
